@@ -10,6 +10,7 @@ import Driver.C18
 import Driver.C17
 import Driver.C05
 import Driver.C04
+import Driver.C03
 import Driver.Pipeline
 import Driver.Data
 import Driver.C01
@@ -28,6 +29,7 @@ def dispatch (prop : String) (input : Json) : Except String Json :=
   | "C17" => Driver.C17.handle input
   | "C05" => Driver.C05.handle input
   | "C04" => Driver.C04.handle input
+  | "C03" => Driver.C03.handle input
   | "C14" => Driver.Data.handle input
   | "C01" => Driver.C01.handle input
   | "C02" => Driver.C01.handle input
